@@ -128,7 +128,21 @@ fn write_variant(n: &MNode, ops: &[String], ch: &mut Chooser, prefix: &str, is_r
             out.push_str(&format!(" xmlns={}http://www.w3.org/1998/Math/MathML{}", q, q));
         }
     }
-    for (k, v) in &n.attrs {
+    // the MathJax bookkeeping class goes at a random position among the attributes
+    let mjx: Option<(usize, String)> = if has(ops, "mathjax-class") && ch.next() < 110 && n.get_attr("class").is_none() {
+        let v = ["MJX-TeXAtom-ORD", "MJX-variant", "data-mjx-texclass", "MJX-tex-caligraphic"][(ch.next() as usize * 4) >> 8];
+        let v = if v.starts_with("data") { "data-mjx-x".to_string() } else { v.to_string() };
+        Some(((ch.next() as usize * (n.attrs.len() + 1)) >> 8, v))
+    } else {
+        None
+    };
+    let spaces = |ch: &mut Chooser| if has(ops, "mathjax-class") && ch.next() < 60 { " = " } else { "=" };
+    for (i, (k, v)) in n.attrs.iter().enumerate() {
+        if let Some((pos, val)) = &mjx {
+            if *pos == i {
+                out.push_str(&format!(" class{}{}{}{}", spaces(ch), q, val, q));
+            }
+        }
         out.push(' ');
         out.push_str(k);
         out.push('=');
@@ -144,10 +158,10 @@ fn write_variant(n: &MNode, ops: &[String], ch: &mut Chooser, prefix: &str, is_r
         }
         out.push(q);
     }
-    if has(ops, "mathjax-class") && ch.next() < 90 && n.get_attr("class").is_none() {
-        let v = ["MJX-TeXAtom-ORD", "MJX-variant", "data-mjx-texclass", "MJX-tex-caligraphic"][(ch.next() as usize * 4) >> 8];
-        let v = if v.starts_with("data") { "data-mjx-x".to_string() } else { v.to_string() };
-        out.push_str(&format!(" class={}{}{}", q, v, q));
+    if let Some((pos, val)) = &mjx {
+        if *pos >= n.attrs.len() {
+            out.push_str(&format!(" class{}{}{}{}", spaces(ch), q, val, q));
+        }
     }
     if n.kids.is_empty() && n.text.is_none() {
         out.push_str("/>");
@@ -236,7 +250,7 @@ fn compare(base: &str, variant: &str, label: &str) -> Result<Option<(String, Str
             if e.contains("No entity named") {
                 return Err("variant uses an HTML5 name MathCAT does not know (reported as error: allowed)".into());
             }
-            return Ok(Some((format!("variant-rejected:{}", label), format!("base accepted, variant rejected: {}\nbase:    {}\nvariant: {}", e.chars().take(200).collect::<String>(), base, variant))));
+            return Ok(Some(("variant-rejected".to_string(), format!("base accepted, variant rejected: {}\nbase:    {}\nvariant: {}", e.chars().take(200).collect::<String>(), base, variant))));
         }
     };
     if a == b {
@@ -249,7 +263,7 @@ fn compare(base: &str, variant: &str, label: &str) -> Result<Option<(String, Str
     } else {
         "braille"
     };
-    Ok(Some((format!("differs:{}:{}", field, label), format!("base:    {}\nvariant: {}\nbase outputs:    {:?}\nvariant outputs: {:?}", base, variant, a, b))))
+    Ok(Some((format!("differs:{}", field), format!("base:    {}\nvariant: {}\nbase outputs:    {:?}\nvariant outputs: {:?}", base, variant, a, b))))
 }
 
 impl Property for C17 {
@@ -259,6 +273,7 @@ impl Property for C17 {
     }
     fn strategy(&self, tier: Tier) -> BoxedStrategy<Case> {
         let mut tc = TokCfg::plain();
+        tc.mathvariant = true;
         tc.lookalike = 1;
         tc.text = 2;
         tc.dict_op = 2;
@@ -268,6 +283,21 @@ impl Property for C17 {
             1 => math_of(structure(token(&tc), sc)),
             1 => textbook(operand, TexCfg::default()).prop_map(|n| MNode::math(vec![n])),
         ];
+        // author attributes on random nodes (attribute order and neighbours matter to the clean-up regexes)
+        let base = (base, proptest::collection::vec((any::<u16>(), sel(&[("mathvariant", "bold"), ("mathvariant", "script"), ("mathvariant", "double-struck"), ("stretchy", "false"), ("fence", "true"), ("displaystyle", "true"), ("mathcolor", "red"), ("data-foo", "it's"), ("data-bar", "a \"q\""), ("xml:lang", "en"), ("intent", ":unit")])), 0..4)).prop_map(|(mut t, attrs)| {
+            let n = t.count_nodes();
+            for (pos, (k, v)) in attrs {
+                let target = (pos as usize * n) >> 16;
+                let mut i = 0;
+                t.walk_mut(&mut |node| {
+                    if i == target && node.tag != "#text" && node.get_attr(k).is_none() && (k != "mathvariant" || node.is_token()) && (k != "intent" || node.tag == "mi") {
+                        node.attrs.push((k.to_string(), v.to_string()));
+                    }
+                    i += 1;
+                });
+            }
+            t
+        });
         let ops = proptest::sample::subsequence(VAR_OPS.iter().map(|s| s.to_string()).collect::<Vec<_>>(), 1..=5).prop_map(|mut v| {
             // a prefix and a default namespace declaration are alternatives
             if v.iter().any(|x| x == "prefix") {
